@@ -8,6 +8,7 @@ The right-hand side is obtained by EXACT differentiation of the traced real forw
 atoms) along the tangent basis d(Exp(tau) X)/dtau|_0 computed through the real *_Mul.forward.
 L-chain (trusted) lifts the per-Function contracts to every expression tree.
 """
+from fractions import Fraction as Q
 from pvc.registry import obligation, bounded, property_meta
 from specs import lie as S
 from contracts.common import *
@@ -134,3 +135,158 @@ for g in ['SO3', 'SE3', 'RxSO3']:
                 env.eq_order('grad_taylor_agrees_to_order3', grad, e, rot, 4)
             env.safe('finite', grad)
     mk()
+
+
+QREG = ('generic', 'identity', 'nearpi', 'small', 'neg')
+
+for g in ['SO3', 'SE3', 'RxSO3']:
+    def mk(g=g):
+        cls = f'{g}_Log'
+        a = S.ALG[g]
+        @obligation(f'C04.{cls}.backward', functions=[f'{OPS}:{cls}.forward', f'{OPS}:{cls}.backward', f'{OPS}:{a}_Jl_inv'],
+                    tol=2e-5, max_paths=64, timeout=300)
+        def ob(env):
+            op = env.load(OPS); T = env.T
+            F = getattr(op, cls)
+            X = group_elem(env, g, 'X', qregimes=QREG)
+            _, q, _ = S.parts(g, X)
+            n = T.linalg.norm(q[0:3], dim=-1)
+            eps = env.eps(X)
+            env.assume('regime 1 of the quaternion log (|v| > eps, |w| > eps)', (n > eps) & (q[3].abs() > eps))
+            cot = env.vec('g', S.DOF[g])
+            rot = op.SO3_Log.forward(q)
+            env.assume('|Log X| above the Taylor switch of Jl_inv', T.linalg.norm(rot, dim=-1) > eps)
+            out, (grad,) = env.backward(F, [X], cot)
+            J = env.jacobian(F.forward, X)                    # (dof, dim)
+            V = tangent_basis(env, op, g, X)                  # (dof, dim)
+            e = cot @ (J @ V.transpose(-1, -2))
+            env.eq('grad_is_inverse_left_jacobian_pullback', grad[0:S.DOF[g]], e)
+            env.eq('last_slot_zero', grad[S.DOF[g]:], 0)
+            env.safe('finite', grad)
+    mk()
+
+
+# ---- adjoint-action generators: {a}_adj(x) is the differential of {G}_Adj at the identity
+for g in GROUPS:
+    def mk(g=g):
+        a = S.ALG[g]
+        @obligation(f'C04.{a}_adj', functions=[f'{OPS}:{a}_adj', f'{OPS}:{g}_Adj'])
+        def ob(env):
+            op = env.load(OPS); T = env.T
+            x = alg_elem(env, g, 'x'); y = alg_elem(env, g, 'y')
+            ad = getattr(op, a + '_adj')(x)
+            # d/dt Adj(Exp(t x)) y at t = 0, through the real {g}_Adj and the first jet of Exp
+            if env.sym:
+                from pvc import algebra as A, storch as st
+                t = A.CTX.sym('_t', aux=True); tv = list(t.num.vars())[0]
+                Ad = getattr(op, g + '_Adj')(S.first_order_element(T, g, x * st.tensor(t)))
+                dAd = st._ew1(lambda e: A.Frac(e.num.pdiff(tv)).subs({tv: A.Frac.const(0)}), Ad)
+            else:
+                h = 1e-6
+                Adp = getattr(op, g + '_Adj')(S.first_order_element(T, g, x * h))
+                Adm = getattr(op, g + '_Adj')(S.first_order_element(T, g, -x * h))
+                dAd = (Adp - Adm) / (2 * h)
+            env.eq('adj_is_differential_of_Adj', ad, dAd)
+            # Lie bracket consistency: hat(ad(x) y) = [hat x, hat y]
+            hx, hy = S.hat(T, g, x), S.hat(T, g, y)
+            env.eq('adj_is_lie_bracket', S.hat(T, g, ad @ y), hx @ hy - hy @ hx)
+    mk()
+
+
+@obligation('C04.sim3_Jl.series', functions=[f'{OPS}:sim3_Jl', f'{OPS}:sim3_Jl_inv', f'{OPS}:sim3_adj'], timeout=300)
+def sim3_series(env):
+    """the documented truncation: sim3_Jl = sum_{k<=5} ad^k/(k+1)!, sim3_Jl_inv = I - ad/2 + ad^2/12 - ad^4/720,
+    and Jl * Jl_inv - I has no term of degree < 6 in xi (L-series: true Jl = full series)"""
+    op = env.load(OPS); T = env.T
+    x = env.vec('x', 7)
+    ad = op.sim3_adj(x)
+    I = S.eye(T, 7, x[0])
+    P = [I]
+    for k in range(5): P.append(P[-1] @ ad)
+    fact = [1, 2, 6, 24, 120, 720]
+    Jl = I * 0
+    for k in range(6): Jl = Jl + P[k] / fact[k]
+    env.eq('Jl_is_partial_sum_to_ad5', op.sim3_Jl(x), Jl)
+    env.eq('Jl_inv_is_bernoulli_sum_to_ad4', op.sim3_Jl_inv(x), I - P[1] / 2 + P[2] / 12 - P[4] / 720)
+    env.eq_order('Jl_times_Jl_inv_identity_up_to_degree6', op.sim3_Jl(x) @ op.sim3_Jl_inv(x), I, x, 6)
+
+
+@obligation('C04.sim3_Exp.backward', functions=[f'{OPS}:sim3_Exp.forward', f'{OPS}:sim3_Exp.backward', f'{OPS}:sim3_Jl'],
+            tol=1e-4, max_paths=16, timeout=300)
+def sim3_exp_bwd(env):
+    """backward = cotangent pulled back through sim3_Jl (exactly, every regime); sim3_Jl is the documented
+    truncation of the true left Jacobian (C04.sim3_Jl.series + L-series)"""
+    op = env.load(OPS); T = env.T
+    F = op.sim3_Exp
+    tau = env.vec('xt', 3)
+    phi = env.vec('x', 3, regimes=REG)
+    sg = env.scalar('xs', regimes=('generic', 'tiny', 'zero'))
+    x = T.cat([tau, phi, sg], -1)
+    cot = env.vec('g', 8)
+    out, (grad,) = env.backward(F, [x], cot)
+    env.eq('grad_is_cot_times_sim3_Jl', grad, cot[0:7] @ op.sim3_Jl(x))
+    env.safe('finite', grad)
+
+
+@obligation('C04.Sim3_Log.backward', functions=[f'{OPS}:Sim3_Log.backward', f'{OPS}:sim3_Jl_inv'], timeout=300)
+def sim3_log_bwd(env):
+    """backward = cotangent pulled back through sim3_Jl_inv at the saved output (any output value)"""
+    op = env.load(OPS); T = env.T
+    out = env.vec('out', 7); cot = env.vec('g', 7)
+    class Ctx: saved_tensors = (out,)
+    grad = op.Sim3_Log.backward(Ctx, cot)
+    env.eq('grad_is_cot_times_sim3_Jl_inv', grad[0:7], cot @ op.sim3_Jl_inv(out))
+    env.eq('last_slot_zero', grad[7:], 0)
+
+
+# ---- gradients at exactly the identity element / the zero vector: concrete evaluation of the real
+# backward through the exact model: no division by zero, and the value is the first-order exact one
+def _identity_of(env, g):
+    return env.const({'SO3': [0, 0, 0, 1], 'SE3': [0, 0, 0, 0, 0, 0, 1], 'RxSO3': [0, 0, 0, 1, 1], 'Sim3': [0, 0, 0, 0, 0, 0, 1, 1]}[g]) * Q(1) \
+        if env.sym else env.const([float(v) for v in {'SO3': [0, 0, 0, 1], 'SE3': [0, 0, 0, 0, 0, 0, 1], 'RxSO3': [0, 0, 0, 1, 1], 'Sim3': [0, 0, 0, 0, 0, 0, 1, 1]}[g]])
+
+for g in GROUPS:
+    def mk(g=g):
+        a = S.ALG[g]
+        @obligation(f'C04.{g}.finite_at_identity', functions=[f'{OPS}:{g}_Log.backward', f'{OPS}:{a}_Exp.backward', f'{OPS}:{g}_Inv.backward',
+                                                              f'{OPS}:{g}_Mul.backward', f'{OPS}:{g}_Act.backward', f'{OPS}:{g}_AdjXa.backward',
+                                                              f'{OPS}:{g}_AdjTXa.backward', f'{OPS}:{g}_Act4.backward'])
+        def ob(env):
+            op = env.load(OPS); T = env.T
+            I = _identity_of(env, g)
+            z = I[0:S.DOF[g]] * 0
+            dof, dim = S.DOF[g], S.DIM[g]
+            cot_a = env.vec('ga', dof); cot_g = env.vec('gg', dim); p = env.vec('p', 3); p4 = env.vec('h', 4); a_ = env.vec('a', dof)
+            zero1 = cot_a[0:1] * 0
+            # Log at the identity: d Log(Exp(tau) I)/d tau = identity matrix
+            out, (gr,) = env.backward(getattr(op, g + '_Log'), [I], cot_a)
+            env.safe('Log_backward_finite_at_identity', gr)
+            env.eq('Log_backward_at_identity_is_cotangent', gr, T.cat([cot_a, zero1], -1))
+            # Exp at the zero vector: Jl(0) = identity
+            out, (gr,) = env.backward(getattr(op, a + '_Exp'), [z], cot_g)
+            env.safe('Exp_backward_finite_at_zero', gr)
+            env.eq('Exp_backward_at_zero_is_cotangent', gr, cot_g[0:dof])
+            for what, ins, cot in (('Inv', [I], cot_g), ('Mul', [I, I], cot_g), ('Act', [I, p], p * 0 + cot_a[0:3]),
+                                   ('Act4', [I, p4], p4 * 0 + cot_g[0:4]), ('AdjXa', [I, a_], cot_a), ('AdjTXa', [I, a_], cot_a)):
+                out, grads = env.backward(getattr(op, f'{g}_{what}'), ins, cot)
+                env.safe(f'{what}_backward_finite_at_identity', *grads)
+    mk()
+
+
+@obligation('C04.canary.right_perturbation', functions=[f'{OPS}:SE3_Act.backward'], canary=True)
+def canary(env):
+    """a right-perturbation Jacobian must be refuted"""
+    op = env.load(OPS); T = env.T
+    X = group_elem(env, 'SE3', 'X'); p = env.vec('p', 3); cot = env.vec('g', 3)
+    out, grads = env.backward(op.SE3_Act, [X, p], cot)
+    # right perturbation: X * Exp(tau)
+    if env.sym:
+        from pvc import algebra as A, storch as st
+        taus = [A.CTX.sym(f'_r{j}', aux=True) for j in range(6)]
+        tv = [list(t.num.vars())[0] for t in taus]
+        Y = op.SE3_Act.forward(op.SE3_Mul.forward(X, S.first_order_element(T, 'SE3', st.tensor(taus))), p)
+        zero = {v: A.Frac.const(0) for v in tv}
+        D = st.tensor([[A.Frac(e.num.pdiff(v)).subs(zero) for v in tv] for e in Y._a.flat])
+        env.eq('right_jacobian', grads[0][0:6], cot @ D)
+    else:
+        env.eq('right_jacobian', grads[0][0:6], grads[0][0:6] + 1)
